@@ -347,57 +347,64 @@ Section Filter.
     ++ (if drag_has_dir s && negb (o_cmd_not_trz o) then drag_dir_flag else []).
 
   (* ---- wrapOutput, one Read (filter.go:808-879), in the order of the checks ---- *)
+
+  (* checks 6-9, reached when the trigger detector stayed silent; pre = what this Read has
+     already produced (cursor restore after a zmodem session, clipboard calls) *)
+  Definition out_forward (s : state) (pre : list obs) (buf : list N) : state * list obs :=
+    (* 6. interrupting: the chunk is DROPPED *)
+    if interrupting s then (s, pre) else
+    (* 7. echo of the upload command *)
+    let skip := skip_cmd s in
+    let s := if skip then set_skip_cmd false s else s in
+    if skip && (match cur_cmd s with
+                | Some c => list_eqb c (trim_right skip_trim_cutset (trim_vt100 buf))
+                | None => false end)
+    then (s, pre ++ [ToTerm skip_echo_repl])
+    else
+    (* 8. zmodem header *)
+    if o_zmodem o && zmodem_detect buf then
+      match zmodem s with
+      | None => (set_zmodem (Some (zm_init buf)) s, pre ++ [ToTerm buf; ToTerm hide_cursor_seq])
+      | Some _ => (s, pre ++ [ToTerm buf; ToTerm buf])     (* CAS fails: falls through to 9 *)
+      end
+    else
+    (* 9. forward *)
+    (s, pre ++ [ToTerm buf]).
+
+  (* checks 4-5 *)
+  Definition out_detect (s : state) (pre : list obs) (buf : list N) : state * list obs :=
+    (* 4. OSC52: looks at buf, never changes it *)
+    let (q, cl) := if o_osc52 o then detect_osc52 (osc s) buf else (osc s, []) in
+    let s := set_osc q s in
+    let pre := pre ++ map Clip cl in
+    (* 5. trigger detector *)
+    match detect (det s) buf with
+    | ((buf', Some t), d') =>
+      (set_handlers (handlers s ++ [HChoosing]) (set_prompts (trig_prompts t) (set_det d' s)),
+       pre ++ [ToTerm buf'])
+    | ((buf', None), d') => out_forward (set_det d' s) pre buf'
+    end.
+
+  (* check 3: a zmodem session owns the stream (inl), or there is none / it has just ended (inr) *)
+  Definition out_zmodem (s : state) (buf : list N) : state + state * list obs :=
+    if o_zmodem o then
+      match zmodem s with
+      | Some z =>
+        let (h, z') := zm_handle z buf in
+        if h then inl (set_zmodem (Some z') s)
+        else inr (set_zmodem None s, [ToTerm show_cursor_seq])
+      | None => inr (s, [])
+      end
+    else inr (s, []).
+
   Definition out_step (s : state) (buf0 : list N) : state * list obs :=
     (* 1. a transfer owns the stream *)
     if transfer s then (s, []) else
     (* 2. trace logger *)
     let (buf, s) := trace_log s buf0 in
-    (* 3. a zmodem session owns the stream, or has just ended *)
-    let zres :=
-      if o_zmodem o then
-        match zmodem s with
-        | Some z =>
-          let (h, z') := zm_handle z buf in
-          if h then inl (set_zmodem (Some z') s)
-          else inr (set_zmodem None s, [ToTerm show_cursor_seq])
-        | None => inr (s, [])
-        end
-      else inr (s, []) in
-    match zres with
+    match out_zmodem s buf with
     | inl s' => (s', [])
-    | inr (s, pre) =>
-      (* 4. OSC52: looks at buf, never changes it *)
-      let (s, clips) :=
-        if o_osc52 o then let (q, cl) := detect_osc52 (osc s) buf in (set_osc q s, map Clip cl)
-        else (s, []) in
-      let pre := pre ++ clips in
-      (* 5. trigger detector *)
-      let '((buf, trig), d') := detect (det s) buf in
-      let s := set_det d' s in
-      match trig with
-      | Some t =>
-        (set_handlers (handlers s ++ [HChoosing]) (set_prompts (trig_prompts t) s), pre ++ [ToTerm buf])
-      | None =>
-        (* 6. interrupting: the chunk is DROPPED *)
-        if interrupting s then (s, pre) else
-        (* 7. echo of the upload command *)
-        let skip := skip_cmd s in
-        let s := if skip then set_skip_cmd false s else s in
-        if skip && (match cur_cmd s with
-                    | Some c => list_eqb c (trim_right skip_trim_cutset (trim_vt100 buf))
-                    | None => false end)
-        then (s, pre ++ [ToTerm skip_echo_repl])
-        else
-        (* 8. zmodem header *)
-        if o_zmodem o && zmodem_detect buf then
-          match zmodem s with
-          | None => (set_zmodem (Some (zm_init buf)) s, pre ++ [ToTerm buf; ToTerm hide_cursor_seq])
-          | Some _ => (s, pre ++ [ToTerm buf; ToTerm buf])     (* CAS fails: falls through to 9 *)
-          end
-        else
-        (* 9. forward *)
-        (s, pre ++ [ToTerm buf])
-      end
+    | inr (s, pre) => out_detect s pre buf
     end.
 
   (* ---- the drag branch of sendInput, shared with the hold-back timer ---- *)
@@ -580,6 +587,51 @@ Section Filter.
     end.
 End Filter.
 
+Arguments transfer {dstate zstate} s.
+Arguments zmodem {dstate zstate} s.
+Arguments prompt {dstate zstate} s.
+Arguments prompts {dstate zstate} s.
+Arguments trace_on {dstate zstate} s.
+Arguments interrupting {dstate zstate} s.
+Arguments skip_cmd {dstate zstate} s.
+Arguments cur_cmd {dstate zstate} s.
+Arguments osc {dstate zstate} s.
+Arguments detect_on {dstate zstate} s.
+Arguments dragging {dstate zstate} s.
+Arguments drag_has_dir {dstate zstate} s.
+Arguments drag_files {dstate zstate} s.
+Arguments held {dstate zstate} s.
+Arguments det {dstate zstate} s.
+Arguments drag_procs {dstate zstate} s.
+Arguments handlers {dstate zstate} s.
+Arguments set_transfer {dstate zstate} v s.
+Arguments set_zmodem {dstate zstate} v s.
+Arguments set_prompt {dstate zstate} v s.
+Arguments set_prompts {dstate zstate} v s.
+Arguments set_trace_on {dstate zstate} v s.
+Arguments set_interrupting {dstate zstate} v s.
+Arguments set_skip_cmd {dstate zstate} v s.
+Arguments set_cur_cmd {dstate zstate} v s.
+Arguments set_osc {dstate zstate} v s.
+Arguments set_detect_on {dstate zstate} v s.
+Arguments set_held {dstate zstate} v s.
+Arguments set_det {dstate zstate} v s.
+Arguments set_drag_procs {dstate zstate} v s.
+Arguments set_handlers {dstate zstate} v s.
+Arguments set_drag {dstate zstate} dg hd fs s.
+Arguments reset_drag {dstate zstate} s.
+Arguments add_drag {dstate zstate} fs hd s.
+Arguments held_bytes {dstate zstate} s.
+Arguments idle {dstate zstate} s.
+Arguments EvOut {zstate} c.
+Arguments EvIn {zstate} c.
+Arguments EvDetectOn {zstate}.
+Arguments EvHoldTimer {zstate}.
+Arguments EvDrag {zstate} i.
+Arguments EvHandler {zstate} i a.
+Arguments EvPromptEnd {zstate}.
+Arguments EvZmodem {zstate} z.
+
 (* ------------------------------------------------------------------------------------ *)
 (* instances used by the correspondence run (ocaml/m_filter.ml): the harness never feeds a *)
 (* chunk on which the real trigger / zmodem detectors fire, so the extracted pumps are run  *)
@@ -590,9 +642,6 @@ Definition silent_detect (d : unit) (c : list N) : (list N * option unit) * unit
 
 Definition corr_run (ex : path -> option kind) (zdet : list N -> bool) (msg_on msg_off : list N) (o : opts)
   (detect_on0 : bool) (es : list (event unit)) : list obs :=
-  let s0 := set_detect_on unit unit detect_on0 (init unit unit tt) in
+  let s0 := set_detect_on detect_on0 (init unit unit tt) in
   snd (run unit unit silent_detect (fun _ => false) zdet unit (fun _ => tt) (fun z _ => (true, z))
            (fun _ => true) (fun z => z) (detect_drag_linux ex) msg_on msg_off (fun _ => false) o s0 es).
-
-(* ------------------------------------------------------------------------------------ *)
-(* what Gen/Skel_filter.v must say (order of the checks, the deferred CompareAndSwap)      *)
